@@ -253,7 +253,10 @@ class SerializationMethodVisitor(
             return UnionMethod(
                 tuple(
                     DiscriminatedAlternative(
-                        expected_class(tp), self.visit(tp), discriminator.alias, key
+                        expected_class(tp),
+                        self.visit(tp),
+                        self.aliaser(discriminator.alias),
+                        key,
                     )
                     for key, tp in discriminator.get_mapping(types).items()
                 ),
